@@ -736,6 +736,10 @@ class SymReal:
     def squeeze(self, *a, **k):
         return self
 
+    def tofile(self, fid, sep="", format="%s"):
+        from . import npenv
+        npenv.write_tokens(fid, [self], sep or " ", format)
+
     def copy(self):
         return self
 
